@@ -394,3 +394,47 @@ def u_too_short(E):
         except PyRaise as pr:
             E.prove('loads[shorter than MTI+bitmap,%s]/only-the-library-error-escapes(%s)' % ('hex' if hexb else 'binary', E.exc_name(pr.exc)),
                     z3.BoolVal(E.exc_is(pr.exc, ERR)), 'P', 'xpost')
+
+
+@unit('dumps+loads[PDS, caller-supplied carriers]', props=['C12', 'C01', 'C02', 'C06'], functions=FUNCS + [Q + '_pds_to_dict'])
+def u_pds_custom_carriers(E):
+    """the carrier elements are those the configuration GIVEN TO THE CALL marks with the PDS processor (here DE60 and DE61, while
+    DE48 is plain text): sub-elements travel in them, the caller's own DE48 text is left alone, everything comes back"""
+    E.merge_ifs = False
+    install_bitarray_contracts(E)
+    enc, cd = codec(E)
+    v1 = encodable_text(E, 'pdsA', cd)
+    E.assume(v1.n >= 0)
+    E.assume(v1.n <= 900)
+    plain = encodable_text(E, 'de48', cd)
+    E.assume(plain.n >= 1)
+    E.assume(plain.n <= 100)
+
+    def ent(ftype, proc=None):
+        d = {'field_name': lift('x'), 'field_type': lift(ftype), 'field_length': VInt(0)}
+        if proc:
+            d['field_processor'] = lift(proc)
+        return E.new_dict(d)
+    cfg = E.new_dict({'48': ent('LLLVAR'), '60': ent('LLLVAR', 'PDS'), '61': ent('LLLVAR', 'PDS')})
+    msg = E.new_dict({'MTI': lift('1144'), 'DE48': plain, 'PDS0023': v1})
+    tag = 'dumps+loads[PDS,custom carriers]'
+    try:
+        out = E.call(Q + 'dumps', msg, encoding=enc, iso_config=cfg)
+        back = E.call(Q + 'loads', out, encoding=enc, iso_config=cfg)
+    except PyRaise as pr:
+        E.prove(tag + '/no-exception(%s)' % E.exc_name(pr.exc), False, 'P')
+        return
+    dv = E.getf(back, 'val')
+    ents = MI.AssocDict.from_concrete(dv).entries if isinstance(dv, dict) else E.fix_len(dv.entries)
+    if ents.clen() is None:
+        E.prove(tag + '/entry-count-determined', False, 'I')
+        return
+    got = {}
+    for i in range(ents.clen()):
+        kv = ents.at(z3.IntVal(i))
+        got[conc_str(kv.items[0])] = kv.items[1]
+    E.prove(tag + '/keys=original+the-configured-carrier', z3.BoolVal(set(got) == {'MTI', 'DE48', 'PDS0023', 'DE60'}), 'P')
+    if 'DE48' in got:
+        E.prove_value_eq(tag + '/callers-DE48-text-unchanged', got['DE48'], plain, 'P')
+    if 'PDS0023' in got:
+        E.prove_value_eq(tag + '/PDS0023-unchanged', got['PDS0023'], v1, 'P')
